@@ -29,17 +29,26 @@ def prepare(runner):
 def custom_replay_file(rp):
     from vf import build
     binary = build.build_tsan("C19_tsan.cpp", TSAN_SOURCES)
-    res = build.run_tsan(binary, rp["failing_check"].split(":")[1])
+    scen = rp["failing_check"].split(":")[1] + (".atomic" if rp["failing_check"].startswith("atomicity:") else "")
+    res = build.run_tsan(binary, scen)
+    if rp["failing_check"].startswith("atomicity:"):
+        return "ATOMICITY-VIOLATION" in res.get("raw", ""), dict(status=res["status"], raw=res.get("raw", "")[:300])
     return res["races"] > 0, dict(status=res["status"], tsan_races=res["races"], functions=res["functions"])
 
 
 def custom_replay(runner, ent, o):
-    """a lock-set finding is reported only if ThreadSanitizer sees a data race when the two methods really run concurrently"""
+    """a lock-set finding is reported only if ThreadSanitizer sees a data race when the two methods really run concurrently;
+    an atomicity finding only if the native stress scenario observes a non-serialisable outcome"""
     from vf import build
     scenario = o["id"].split(":")[1]
+    if o["id"].startswith("atomicity:"):
+        scenario += ".atomic"
     if scenario not in _tsan_cache:
         _tsan_cache[scenario] = build.run_tsan(runner.tsan_binary, scenario)
     res = _tsan_cache[scenario]
+    if o["id"].startswith("atomicity:"):
+        bad = "ATOMICITY-VIOLATION" in res.get("raw", "")
+        return bad, dict(status=res["status"], atomicity_violation=bad, raw=res.get("raw", "")[:300])
     return res["races"] > 0, dict(status=res["status"], tsan_races=res["races"], functions=res["functions"])
 
 
@@ -47,11 +56,13 @@ CLAIM = ("Lock-set discipline decided on symbolic executions of every public met
          "OnlineAverage, OnlineVariance, RateMonitoring, CheckupEqualTo/GreaterThan/LowerThan<double>, CheckupReliability, CheckupRate: "
          "for all inputs and all paths, two accesses by different logical threads to the object's footprint (its storage and the heap "
          "reachable from it, including the caller-side copy of a returned report) conflict only when they hold a common mutex or are "
-         "both atomic - which rules out data races for any number of threads and any schedule; plus the sequential semantics of "
+         "both atomic - which rules out data races for any number of threads and any schedule; every public method touches the object "
+         "inside ONE critical section of its mutex (a method that reads and writes the object in two critical sections is not atomic "
+         "even without a data race; reported when a native stress scenario observes a non-serialisable outcome); plus the sequential semantics of "
          "store/load/consume (a value is handed to at most one consumer, in store order). A lock-set finding is reported only when "
          "ThreadSanitizer confirms a data race on a native two-thread run of the two methods")
 BOUNDS = dict(quick="one call of each public method per logical thread from a warmed-up object, symbolic arguments; TSan replay: 20000 iterations per thread",
               thorough="same")
-ASSUMPTIONS = ["lock-set reduction: accesses protected by a common mutex or atomic are race-free; lock-free algorithms are not analysed beyond 'is atomic'",
+ASSUMPTIONS = ["bulk copies (memcpy/memset of the object or of a returned copy) count as accesses", "lock-set reduction: accesses protected by a common mutex or atomic are race-free; lock-free algorithms are not analysed beyond 'is atomic'",
                "pthread_mutex_lock/unlock modelled as a lock-depth counter; footprint by reachability through pointer-sized concrete cells"]
 OUTSIDE = ["1e5-operation stress runs", "fairness / deadlock (one lock per sub-object)", "report consistency across CheckupRate's two sub-objects (each sub-call is atomic)"]
